@@ -192,6 +192,7 @@ def run_scripts(scripts, servertype):
         drv = memnet.ServerDriver(d)
         for sc_i, (script, retries, seq0) in enumerate(scripts):
             execs.clear()
+            sc.set_budget(20000)
             layer = FaultLayer()
             net.hook = layer
             tr = [{"e": "cfg", "retries": retries, "seq0": seq0}]
